@@ -752,7 +752,9 @@ def gen_identity_schema(rng: random.Random, idx: int, template: str | None = Non
         L.append(src)
         L.append(f"L1 = {sn}")
         # restore the prelude names the class definition has just shadowed inside this module
-        L.append("from dataclasses import dataclass, field, make_dataclass; import collections, datetime, typing, types, uuid, enum, pathlib")
+        # (the class keeps its own name: re-binding that one would make it unreachable by name)
+        keep = [m for m in ("collections", "datetime", "typing", "types", "uuid", "enum", "pathlib") if m != sn]
+        L.append("from dataclasses import dataclass, field, make_dataclass; import " + ", ".join(keep))
         names = ["L1"]
     elif t == "shadow-module":
         module = rng.choice(SHADOW_MODULE_NAMES)
